@@ -34,8 +34,17 @@ def run(seed, checks):
         rc, out = sh(f"git apply {VERIF}/seeded/{seed}/patch.diff", wt)
         if rc != 0:
             return seed, {"error": "patch does not apply: " + out[-300:]}
+        # one process, one load of the patched tree, every check (verifcheck ALL prints "ALL-RESULT <id> exit=<n>")
+        rc_all, out = sh(f"{BIN} ALL quick --repo {wt} --verif {ev}")
+        codes = {}
+        for l in out.splitlines():
+            if l.startswith("ALL-RESULT "):
+                _, cid, ex = l.split()
+                codes[cid] = int(ex.split("=")[1])
+        if rc_all != 0 or not codes:
+            return seed, {"error": "checker did not run: " + out[-300:]}
         for c in checks:
-            rc, out = sh(f"{BIN} {c} quick --repo {wt} --verif {ev}")
+            rc = codes.get(c, 2)
             fired = []
             if rc == 1:
                 try:
@@ -45,10 +54,8 @@ def run(seed, checks):
                             fired.append(o["key"])
                 except Exception as ex:  # noqa
                     fired.append("?" + repr(ex))
-                if not fired:
-                    fired = [l for l in out.splitlines() if l.startswith("VIOLATION")]
             if rc not in (0, 1):
-                fired += [l[:300] for l in out.splitlines() if l.startswith("CHECK-BROKEN")]
+                fired += [l[:300] for l in out.splitlines() if l.startswith("CHECK-BROKEN") and f"property={c}" in l]
             res[c] = {"exit": rc, "fired": fired}
     finally:
         sh(f"git worktree remove --force {wt}", REPO)
@@ -66,7 +73,7 @@ def main():
     mj = os.path.join(VERIF, "seeded", "MATRIX.json")
     if sys.argv[1:] and os.path.exists(mj):
         out = json.load(open(mj))  # explicit seeds: refresh only those rows
-    with ThreadPoolExecutor(4) as ex:
+    with ThreadPoolExecutor(int(os.environ.get('MATRIX_JOBS', '3'))) as ex:
         for seed, res in ex.map(lambda s: run(s, checks), seeds):
             out[seed] = res
             caught = [c for c, v in res.items() if isinstance(v, dict) and v.get("exit") == 1]
